@@ -85,6 +85,11 @@ int main(int argc, char **argv)
 				// a wrong password never yields a key
 				SM2_KEY w; cp = buf; size_t l2 = len; int r3 = sm2_private_key_info_decrypt_from_der(&w, &at, &al, "Passw0re", &cp, &l2); int r4; cp = buf; l2 = len; r4 = sm2_private_key_info_decrypt_from_der(&w, &at, &al, "", &cp, &l2);
 				memcpy(re, buf, len); relen = len; composite(obj, buf, len, dry, r1, r2, left, re, relen, same && r3 != 1 && r4 != 1); }
+			else if (!strcmp(obj, "ctder") || !strcmp(obj, "sigder")) {      // a DER value from the script: decode into an exact-size object, re-encode, compare
+				const uint8_t *in = vh_exact(dn); memcpy((uint8_t *)in, data, dn); cp = in; left = dn; size_t osz = !strcmp(obj, "ctder") ? sizeof(SM2_CIPHERTEXT) : sizeof(SM2_SIGNATURE); void *o = vh_exact(osz); memset(o, 0, osz);
+				r2 = !strcmp(obj, "ctder") ? sm2_ciphertext_from_der(o, &cp, &left) : sm2_signature_from_der(o, &cp, &left); p = re; relen = 0;
+				if (r2 == 1) { if (!strcmp(obj, "ctder")) sm2_ciphertext_to_der(o, &p, &relen); else sm2_signature_to_der(o, &p, &relen); }
+				composite(obj, (uint8_t *)in, dn, dn, 1, r2, left, re, relen, 1); }
 			else if (!strcmp(obj, "name")) { uint8_t nm[512]; size_t nl = 0; r1 = x509_name_set(nm, &nl, sizeof nm, "CN", "Beijing", "Haidian", "PKU", "CS", "Alice"); p = NULL; dry = 0; x509_name_to_der(nm, nl, &p, &dry); p = buf; len = 0; if (r1 == 1) r1 = x509_name_to_der(nm, nl, &p, &len);
 				const uint8_t *d2; size_t d2l; cp = buf; left = len; r2 = x509_name_from_der(&d2, &d2l, &cp, &left); same = r2 == 1 && d2l == nl && !memcmp(d2, nm, nl); p = re; if (r2 == 1) x509_name_to_der(d2, d2l, &p, &relen); composite(obj, buf, len, dry, r1, r2, left, re, relen, same); }
 			continue;
